@@ -72,7 +72,8 @@ Section Keeps.
     intros req k id matcher a a' H. unfold references_ok, orel in *.
     destruct (olookup k a) as [v|], (olookup k a') as [v'|]; try contradiction; [|reflexivity].
     destruct v, v'; cbn [txr] in H; try contradiction; try reflexivity.
-    apply txr_arr_unfold in H. apply forallb_txr_list; [apply reference_ok_rel | exact H].
+    apply txr_arr_unfold in H. apply forallb_txr_list; [|exact H].
+    intros x y Hxy. rewrite (reference_ok_rel id matcher x y Hxy). destruct x, y; cbn [txr] in Hxy; try contradiction; reflexivity.
   Qed.
 
   Lemma attachments_ok_rel : forall a a',
